@@ -694,6 +694,27 @@ class Run:
         rs = rng.randrange(1 << 30)
         r = rng.random()
         live = self.usable()
+        q = getattr(self, 'queued_ops', None)
+        while q:
+            op = q.pop(0)
+            if self.refs_ok(op): return dict(op, rs=rs)
+        # a membership test, then a change of that membership from either side, then the same test - nothing flushed in between
+        if r < 0.07 and live:
+            cands = [(oid, key) for oid in live for key in w.ent_rel[sh.objs[oid]['ent']] if w.sides[key]['coll']]
+            if cands:
+                oid, key = rng.choice(cands); rkey = w.rev(key)
+                tgt = [x for x in self.usable(w.sides[rkey]['ent']) if not (w.schema['rels'][key[0]]['sym'] and x == oid)]
+                if tgt:
+                    x = rng.choice(tgt)
+                    member = x in sh.partners(oid, key)
+                    if rng.random() < 0.5: ch = {'k': 'coll_remove' if member else 'coll_add', 'o': oid, 'key': list(key), 'items': [x], 'via': rng.choice(['list', 'single', 'op']), 'noreads': True}
+                    elif w.sides[rkey]['coll']: ch = {'k': 'coll_remove' if member else 'coll_add', 'o': x, 'key': list(rkey), 'items': [oid], 'via': 'single', 'noreads': True}
+                    else: ch = {'k': 'set_ref', 'o': x, 'key': list(rkey), 'v': None if member else oid, 'noreads': True}
+                    test = {'k': 'coll_in', 'o': oid, 'key': list(key), 'x': x, 'noreads': True}
+                    self.queued_ops = [ch, dict(test)] + ([dict(ch, k={'coll_add': 'coll_remove', 'coll_remove': 'coll_add'}.get(ch['k'], ch['k']),
+                                                                **({'v': (oid if ch.get('v') is None else None)} if ch['k'] == 'set_ref' else {})), dict(test)]
+                                                          if rng.random() < 0.4 else [])
+                    return dict(test, rs=rs)
         # follow-up: another call on the collection touched last, re-using the items of that call (interplay of pending additions / removals)
         lc = getattr(self, 'last_coll_gen', None)
         if lc is not None and rng.random() < 0.3 and lc[0] in live:
@@ -828,6 +849,7 @@ class Run:
         if k == 'create':
             return op['oid'] not in sh.objs and all(ok(x) for x in op['refs'].values()) and all(ok(x) for xs in op['colls'].values() for x in xs)
         if 'o' in op and not ok(op['o']): return False
+        if k == 'coll_in' and not ok(op['x']): return False
         if k == 'set_ref' and op['v'] is not None and not ok(op['v']): return False
         if 'items' in op and not all(ok(x) for x in op['items']): return False
         return True
@@ -844,6 +866,7 @@ class Run:
         if not self.refs_ok(op): self.count('op-skipped'); return
         if k == 'create': self.next_oid = max(self.next_oid, op['oid'] + 1)
         self.ops.append(op)
+        if k == 'coll_in': return self.membership_test(op)
         before = self.sh.clone()
         mark = self.mark()
         c0 = self.cache()
@@ -898,7 +921,30 @@ class Run:
                 self.sync_seeds()
         self.last_coll_op = (op.get('o'), tuple(op['key']) if 'key' in op else None, k) if k.startswith('coll_') else getattr(self, 'last_coll_op', None)
         if k.startswith('coll_'): self.coll_hist.setdefault((op['o'], tuple(op['key'])), []).append(k)
-        if self.do_reads and self.rrng.random() < 0.4: self.reads()
+        if self.do_reads and not op.get('noreads') and self.rrng.random() < 0.4: self.reads()
+
+    def membership_test(self, op):
+        """`x in obj.coll` as a call of its own (no read phase around it); for a many-to-many collection of an in-fragment schema also
+        the session model's `hasLink`"""
+        w = self.w; key = tuple(op['key']); name = w.sides[key]['name']; kind = w.relkind(key)
+        obj = self.resolve(op['o'])
+        xo = self.resolve(op['x']) if obj is not None and not self.stop else None
+        if obj is None or xo is None or self.stop: return
+        exp = op['x'] in self.sh.partners(op['o'], key)
+        self.count('op:coll_in:%s:%s' % (kind, exp))
+        hist = self.coll_hist.get((op['o'], key), [])
+        n0 = len(self.findings)
+        got = {}
+        def fn():
+            got['v'] = xo in getattr(obj, name)
+            return got['v']
+        self.rd('coll-in', kind + (':after-add' if 'coll_add' in hist else ''), fn, exp)
+        if self.w.fragment and not self.abandoned and 'v' in got and key[0] in w.m2m and not w.schema['rels'][key[0]]['sym'] and not self.stop:
+            a_, b_ = (op['o'], op['x']) if not key[1] else (op['x'], op['o'])
+            self.model_ops.append({'k': 'hasLink', 'l': [key[0], self.key_of(a_), self.key_of(b_)]})
+            snap = self.snapshot(); snap['expect_out'] = bool(got['v'])
+            self.model_checks.append(snap)
+            self.prev_index = self.real_indexed()
 
     abandoned = False
     def model_abandon(self, why):
